@@ -3,7 +3,8 @@
 Scenario = C01-style case (graph, chunkings, pre-stored subset, processor configuration).  A dry run under the
 file-system fault layer (vf/faults/fsfaults.py) records every mutating file-system operation issued below the
 storage directory.  Every operation index (a spread subset of at most 40 when there are more than 80) x fault
-mode {OSError once, OSError sticky, process death just before, process death just after (forked child,
+mode {OSError once, OSError sticky (everything from there on), OSError on every later operation on that same path,
+process death just before, process death just after (forked child,
 os._exit)} is then executed.  Observer = a fresh Context on the same directory with the fault layer removed:
  * every data type reported stored must load completely and equal the whole-run reference;
  * a call that returned normally must have stored (correctly) everything the fault-free run stores
@@ -43,12 +44,13 @@ ASSUMPTIONS = [
     "process death = os._exit(137) in a forked child (no finally/close/rename runs afterwards); power loss, lost "
     "renames and partial page writes are not modelled",
     "I/O failure = OSError(ENOSPC) raised by the intercepted Python-level call (os.makedirs/mkdir/rename/replace/"
-    "remove/unlink/rmdir, shutil.rmtree/move, open for writing, file.write), once or from that operation on",
+    "remove/unlink/rmdir, shutil.rmtree/move, open for writing, file.write): once, from that operation on (sticky), "
+    "or on every later operation on the same path (a file that cannot be written however often it is tried)",
     "DataDirectory / FileSytemBackend only; single storage frontend",
     "threaded scenarios run under the controlled scheduler with a generated schedule; numba helpers un-jitted",
 ]
 _COUNTER = itertools.count()
-MODES = ("raise", "sticky", "die_before", "die_after")
+MODES = ("raise", "sticky", "path", "die_before", "die_after")
 
 
 @st.composite
@@ -271,7 +273,7 @@ def run_case(d, max_indices=0):
         if L > 80:
             cl.add("ops_subsampled")
         return dict(nt=n_src_chunks >= 2 and L >= 2, classes=sorted(cl), inner_evaluations=inner,
-                    inner_nontrivial=inner - 4)
+                    inner_nontrivial=max(0, inner - len(MODES)))
     finally:
         graphs.drop_runtime(token)
         shutil.rmtree(base, ignore_errors=True)
